@@ -10,7 +10,11 @@ def run(ctx):
     ctx.cov["rule"] = ("seeded random queue hierarchies (2-3 levels, limits/quotas incl. 0, -1, 0.5 GPU; cpu quotas/limits), whole / fractional / "
                        "gpu-memory / elastic jobs, all actions, 1-3 cycles; running sums recomputed by the spec after every Bind/Pipeline; "
                        "non-trivial = a decision was taken")
-    n = 300 if ctx.quick else 8000
+    n = 1200 if ctx.quick else 12000
     st_cluster.run_stage(ctx, PREFIXES, [("mixed", n // 2), ("full", n // 4), ("fraction", n // 4)])
     if not ctx.quick:
         st_fixtures.run_stage(ctx, PREFIXES)
+
+
+def replay(ctx, obj):
+    st_cluster.replay_stage(ctx, obj, PREFIXES)
